@@ -370,7 +370,6 @@ package lnwallet
 //@
 //@ func SetStateNumHint
 //@   props C04
-//@   requires commitTx != nil
 //@   ensures result == nil ==> stateNum <= 281474976710655 && len(commitTx.TxIn) == 1
 //@   ensures result == nil ==> commitTx.TxIn[0].Sequence == hintSeq(stateNum, ret(Uint64))
 //@   ensures result == nil ==> commitTx.LockTime == hintLock(stateNum, ret(Uint64))
@@ -462,3 +461,32 @@ package lnwallet
 //@   loop 2 step totalHtlcWeight == wrap(prev(totalHtlcWeight) + ite(ret(HtlcIsDust, 0), 0, input.HTLCWeight), 64)
 //@   loop 3 step totalHtlcWeight == wrap(prev(totalHtlcWeight) + ite(ret(HtlcIsDust, 1), 0, input.HTLCWeight), 64)
 //@   site return nil as weight: assert result2 == wrap(ret(CommitWeight) + totalHtlcWeight, 64) && result3 == retn(evaluateHTLCView, 0)
+//@
+//@ func (cb *CommitmentBuilder) createUnsignedCommitmentTx
+//@   props C01
+//@   requires cb != nil && filteredHTLCView != nil
+//@   loop * havoc
+//@   let isInit = old(cb.chanState.IsInitiator)
+//@   let dust = ite(whoseCommit == lntypes.Remote, old(cb.chanState.RemoteChanCfg.DustLimit), old(cb.chanState.LocalChanCfg.DustLimit))
+//@   let fee = ret(FeeForWeight)
+//@   let our0 = entry(ourBalance)
+//@   let their0 = entry(theirBalance)
+//@   let ourAfter = ite(isInit, ite(fee > fdiv(our0, 1000), 0, wrap(our0 - wrap(fee * 1000, 64), 64)), our0)
+//@   let theirAfter = ite(isInit, their0, ite(fee > fdiv(their0, 1000), 0, wrap(their0 - wrap(fee * 1000, 64), 64)))
+//@   loop 0 step numHTLCs == swrap(prev(numHTLCs) + ite(ret(HtlcIsDust, 0), 0, 1), 64)
+//@   loop 1 step numHTLCs == swrap(prev(numHTLCs) + ite(ret(HtlcIsDust, 1), 0, 1), 64)
+//@   site call HtlcIsDust nth 0: assert !arg(1) && arg(2) == whoseCommit && arg(3) == feePerKw && arg(4) == fdiv(htlc.Amount, 1000) && arg(5) == dust
+//@   site call HtlcIsDust nth 1: assert arg(1) && arg(2) == whoseCommit && arg(3) == feePerKw && arg(4) == fdiv(htlc.Amount, 1000) && arg(5) == dust
+//@   site call HtlcIsDust nth 2: assert !arg(1) && arg(2) == whoseCommit && arg(3) == feePerKw && arg(4) == fdiv(htlc.Amount, 1000) && arg(5) == dust
+//@   site call HtlcIsDust nth 3: assert arg(1) && arg(2) == whoseCommit && arg(3) == feePerKw && arg(4) == fdiv(htlc.Amount, 1000) && arg(5) == dust
+//@   site call FeeForWeight: assert arg(0) == feePerKw && arg(1) == wrap(ret(CommitWeight) + wrap(input.HTLCWeight * numHTLCs, 64), 64)
+//@   site call CreateCommitTx nth 0: assert whoseCommit == lntypes.Local && arg(5) == fdiv(ourAfter, 1000) && arg(6) == fdiv(theirAfter, 1000) &&
+//@        arg(7) == numHTLCs && arg(8) == isInit && arg(2) == keyRing
+//@   site call CreateCommitTx nth 1: assert whoseCommit != lntypes.Local && arg(5) == fdiv(theirAfter, 1000) && arg(6) == fdiv(ourAfter, 1000) &&
+//@        arg(7) == numHTLCs && arg(8) == !isInit && arg(2) == keyRing
+//@   site call addHTLC nth 0: assert !ret(HtlcIsDust, 2) && arg(1) == whoseCommit && !arg(2) && arg(3) == htlc
+//@   site call addHTLC nth 1: assert !ret(HtlcIsDust, 3) && arg(1) == whoseCommit && arg(2) && arg(3) == htlc
+//@   site call SetStateNumHint: assert arg(1) == height
+//@   loop 4 step totalOut == swrap(prev(totalOut) + txOut.Value, 64)
+//@   site return nil: assert swrap(totalOut + fee, 64) <= cb.chanState.Capacity && result0.fee == fee &&
+//@        result0.ourBalance == ourAfter && result0.theirBalance == theirAfter
